@@ -758,6 +758,14 @@ def sessions(ctx):
                 script.append('label %s=%d' % (k, v))
             elif r < 0.33 and labels:
                 k = rng.choice(sorted(labels))
+                if dict(live.labels) != labels:
+                    # parsing must not edit the label table (seeded change C15-5 left it empty after a refused offset)
+                    ctx.findings.append(dict(
+                        key=dict(kind='label-table-changed-by-parsing'),
+                        what='same parser, after %d operations (none of which edits the table): its label table is %r, the labels '
+                             'defined are %r' % (len(script), dict(live.labels), labels),
+                        replay=dict(session=script, got=sorted(dict(live.labels)), expected=sorted(labels))))
+                    break
                 del live.labels[k]
                 del labels[k]
                 script.append('del %s' % k)
